@@ -639,6 +639,30 @@ func c13Units(tier string) []Unit {
 			}
 		}})
 	}
+	// hundreds of indices tracked at once behind one open index, then the drain: 1 stays open while 2..n are begun
+	// and all but one of them finished, then 1 finishes (internal containers grow and shrink across their thresholds)
+	for _, n := range []int{300, 700} {
+		n := n
+		units = append(units, Unit{Name: fmt.Sprintf("long-holder/%d-indices", n), Weight: 10, Run: func(c *Ctx) {
+			hold := uint64(n - 100)
+			a := []wmStep{{"B", 1}}
+			for i := 2; i <= n; i++ {
+				a = append(a, wmStep{"B", uint64(i)})
+				if uint64(i) != hold {
+					a = append(a, wmStep{"D", uint64(i)})
+				}
+			}
+			a = append(a, wmStep{"D", 1}, wmStep{"W", hold - 1}, wmStep{"B", uint64(n + 1)}, wmStep{"D", uint64(n + 1)}, wmStep{"D", hold}, wmStep{"W", uint64(n + 1)})
+			s := [][]wmStep{a, {{"W", 1}}}
+			var obs string
+			ExploreSched(c, wmScenario(s, &obs), SchedOpts{Budgets: []int{0}, MaxEnv: -1, MaxSteps: 400000,
+				Outcome: func() string { return obs },
+				NT:      func() string { return fmt.Sprintf("holder%d#%s", n, obs) },
+				Sample: func() any {
+					return map[string]any{"scripts": fmt.Sprintf("B1 (B2 D2 .. B%d D%d, %d stays open) D1 W%d B%d D%d D%d W%d | W1", n, n, hold, hold-1, n+1, n+1, hold, n+1), "result": obs}
+				}})
+		}})
+	}
 	// a burst that fills the channel buffer with finished work, then an index that stays open while a higher one is
 	// begun and finished: marks must be counted in the order in which their calls returned, also beyond the buffer
 	for _, pairs := range []int{49, 50, 51} {
